@@ -30,6 +30,8 @@ pub struct FkDef {
     pub ref_table: String,
     pub ref_col: String,
     pub on_delete: FkAction,
+    /// declared `ON UPDATE RESTRICT` (otherwise no ON UPDATE clause = NO ACTION)
+    pub on_update_restrict: bool,
 }
 
 #[derive(Clone, Debug, Default)]
@@ -76,6 +78,9 @@ impl TableDef {
                 s.push_str(&format!(" REFERENCES {}({})", fk.ref_table, fk.ref_col));
                 if fk.on_delete == FkAction::Cascade {
                     s.push_str(" ON DELETE CASCADE");
+                }
+                if fk.on_update_restrict {
+                    s.push_str(" ON UPDATE RESTRICT");
                 }
             }
             parts.push(s);
@@ -581,6 +586,19 @@ impl MDb {
                     });
                 }
                 self.check_fks(&snap)?;
+                // ON UPDATE RESTRICT: a referenced key may not change at all. The statement got here, so every child
+                // still finds a parent (another row supplies the key); RESTRICT and NO ACTION differ: not judged.
+                for (_, (cd, crows)) in &snap.tables {
+                    for f in cd.fks.iter().filter(|f| f.on_update_restrict && f.ref_table.eq_ignore_ascii_case(table)) {
+                        let (pi, ci) = (def.col_idx(&f.ref_col).unwrap(), cd.col_idx(&f.col).unwrap());
+                        for (j, r) in rows.iter().enumerate() {
+                            let newr = &snap.tables[&k].1[j];
+                            if r[pi].key(true) != newr[pi].key(true) && crows.iter().any(|c| c[ci].sql_cmp(&r[pi]) == Some(std::cmp::Ordering::Equal)) {
+                                return Err(MErr::Unsupported("ON UPDATE RESTRICT where NO ACTION would pass".into()));
+                            }
+                        }
+                    }
+                }
                 Ok(Effect { rows_affected: Some(n), returning: if *returning { Some(changed) } else { None } })
             }
             Stmt::Delete { table, where_, returning } => {
